@@ -380,8 +380,13 @@ def do_check(work, prop, spec, tier, seed, only):
         "wall_s": round(time.time() - t0, 1),
         "violations": len(reported),
     }
-    os.makedirs(os.path.join(VERIF, "evidence"), exist_ok=True)
-    with open(os.path.join(VERIF, "evidence", prop + ".json"), "w") as f:
+    # evidence/<id>.json describes the repository itself; runs against another copy of the tree
+    # (VERIF_REPO: mutants, seeded changes, candidate fixes) or restricted to some units write elsewhere
+    evdir = os.path.join(VERIF, "evidence")
+    if os.path.realpath(REPO) != "/repo" or only:
+        evdir = os.path.join(VERIF, ".work", "evidence-other")
+    os.makedirs(evdir, exist_ok=True)
+    with open(os.path.join(evdir, prop + ".json"), "w") as f:
         json.dump(ev, f, indent=1, sort_keys=True)
     log("property=%s tier=%s parts=%d evaluations=%d distinct=%d states=%d transitions=%d exhaustive=%s violations=%d known=%d wall=%.0fs (build %.0fs)" % (
         prop, tier, len(parts), cov["evaluations"], cov["distinct_nontrivial"], st, tr, cov["exhaustive"], len(reported), len(knownhits),
